@@ -1,0 +1,13 @@
+//go:build verif
+
+package cmsys
+
+// VerifPointHook, when set, is called at the schedule points of the record-file operations
+// (verification builds only; see verif_off.go for the regular build).
+var VerifPointHook func(name string, data interface{})
+
+func verifPoint(name string, data interface{}) {
+	if VerifPointHook != nil {
+		VerifPointHook(name, data)
+	}
+}
